@@ -32,11 +32,13 @@ func newFuture(predecessor *Future) *Future {
 }
 
 func (my *Future) Get1() any {
+	verifYieldWait(my)
 	my.wg.Wait()
 	return my.value
 }
 
 func (my *Future) Get2() (any, error) {
+	verifYieldWait(my)
 	my.wg.Wait()
 	return my.value, my.err
 }
@@ -47,13 +49,16 @@ func (my *Future) setValue(value any, err error) {
 	my.err = err
 
 	var now = time.Now()
+	verifYield(VerifSiteStoreUpdateTime)
 	atomic.StorePointer(&my.updateTime, unsafe.Pointer(&now))
+	verifYield(VerifSiteStorePredecessor)
 	atomic.StorePointer(&my.predecessor, nil)
 
 	my.wg.Done()
 }
 
 func (my *Future) getUpdateTime() time.Time {
+	verifYield(VerifSiteLoadUpdateTime)
 	var p = (*time.Time)(atomic.LoadPointer(&my.updateTime))
 	if p != nil {
 		return *p
@@ -63,6 +68,7 @@ func (my *Future) getUpdateTime() time.Time {
 }
 
 func (my *Future) getPredecessor() *Future {
+	verifYield(VerifSiteLoadPredecessor)
 	var p = (*Future)(atomic.LoadPointer(&my.predecessor))
 	return p
 }
